@@ -22,7 +22,7 @@ def streamRun (c0 max : Nat) (wire : Bytes) (sched : List ReadEv) : String :=
     match n with
     | 0 => acc ++ "more@" ++ toString (total - t.wire.length)
     | n + 1 =>
-      let o := recv c0 max t
+      let o := recvC c0 max t
       let at_ := "@" ++ toString (total - o.t.wire.length) ++ ":" ++ toString o.cap
       match o.res with
       | .msg bs =>
